@@ -180,7 +180,11 @@ func (fr *Frame) val(v ssa.Value) Val {
 }
 
 func (e *Engine) funcConst(fn *ssa.Function) string {
-	name := "fn$" + fn.String()
+	return e.funcConstByName(fn.String())
+}
+
+func (e *Engine) funcConstByName(full string) string {
+	name := "fn$" + full
 	q := sym(name)
 	if !e.sc.seen[q] {
 		e.sc.decl(name, "Int")
@@ -2285,8 +2289,14 @@ func (fr *Frame) noteResult(cc *ssa.CallCommon, res Val) {
 	}
 	for _, n := range names {
 		fr.lastRes[n] = first
+		for i, c := range res.Tuple {
+			fr.lastRes[fmt.Sprintf("%s@%d", n, i)] = c
+		}
 		if k := fr.sourceOrdinal(n); k > 0 {
 			fr.lastRes[fmt.Sprintf("%s#%d", n, k)] = first
+			for i, c := range res.Tuple {
+				fr.lastRes[fmt.Sprintf("%s#%d@%d", n, k, i)] = c
+			}
 		}
 	}
 }
